@@ -24,6 +24,7 @@ type graphT struct {
 type stateT struct {
 	Obs   string `json:"obs"` // canonical JSON (sorted keys, no spaces)
 	Quiet bool   `json:"quiet"`
+	Ok    *bool  `json:"ok"` // false: the state violates the property invariants (as-coded graphs only)
 }
 type envEdge struct{ act, to int }
 
@@ -170,6 +171,8 @@ func explore(sc *sched, newWorld func(pathNo int) world, sum *tl.Summary, what s
 	sort.Ints(order)
 	nondet, unreached, paths, divergences, behind := 0, 0, 0, 0, 0
 	diverged := map[key]bool{}
+	badSeen := map[int]bool{}
+	var badPaths []any
 	maxPaths := 4*total + 10
 	for _, target := range order {
 		for {
@@ -254,6 +257,12 @@ func explore(sc *sched, newWorld func(pathNo int) world, sum *tl.Summary, what s
 						return
 					}
 					cand = next
+					if len(next) == 1 && g.States[next[0]].Ok != nil && !*g.States[next[0]].Ok && !badSeen[next[0]] {
+						badSeen[next[0]] = true
+						if len(badPaths) < 3 {
+							badPaths = append(badPaths, tl.M{"path": append([]pathStep{}, hist...)})
+						}
+					}
 				}
 			})
 			sum.Evaluations++
@@ -274,4 +283,6 @@ func explore(sc *sched, newWorld func(pathNo int) world, sum *tl.Summary, what s
 	sum.Extra["nondeterministic_macro_steps_seen"] = nondet
 	sum.Extra["macro_steps_not_taken_by_runtime"] = unreached
 	sum.Extra["states_behind_a_divergence"] = behind
+	sum.Extra["property_violating_states_reached_on_real_code"] = len(badSeen)
+	sum.Extra["property_violating_paths"] = badPaths
 }
